@@ -482,6 +482,12 @@ def c16(run, scratch):
     cases = mc_trace(run, scratch, "thorough" if t else "", "signature", workers=14 if t else 10, module="MC_Signature")
     for c in cases[:1] + cases[-1:]:
         run.sample({"descriptor": b2s(c["sig"]), "class": c["class"], "spec_result": c["want"]})
+    soup = [e for e in harness_trace(scratch, "soup", "soup", ["--depth", 6 if t else 5]) if e["api"] == "deobfuscate_signature"]
+    run.evaluations += sum(e["tried"] for e in soup)
+    for e in soup:
+        run.steps.append({"step": "token-soup", "api": e["api"], "strings_tried": e["tried"], "failing": len(e["failing"])})
+        for f in e["failing"][:3]:
+            run.violation("token-soup", {"signature": {"step": "token-soup", "what": f["what"][:40]}, "arg": b2s(f["arg"]), "what": f["what"]})
     text_trace(run, scratch, "Trace_Text_sig", "sig", 60 if t else 15, 300 if t else 150, _c16_corrupt,
                lambda e: e["t"] == "sig" and e["out"]["mapper"] == [] and not b2s(e["sig"]).startswith("("),
                workers=14 if t else 10)
@@ -661,15 +667,20 @@ def c13(run, scratch):
         run.add_tlc(f"MC_LineArith_{reader}_saturating", r, note="every field/line value at small width: no overflow, offset rule kept")
     events = harness_trace(scratch, "retrace", "total", ["--seed", run.seed, "--n", 400 if t else 90, "--queries", 60,
                                                          "--focus", "all", "--wild", "--files", ""])
+    soup = harness_trace(scratch, "soup", "soup", ["--depth", 6 if t else 5])
+    run.evaluations += sum(e["tried"] for e in soup)
+    run.sample({"token_soup": [{"api": e["api"], "strings_tried": e["tried"], "failing": len(e["failing"])} for e in soup]})
+    events = events + soup
     nload = len([e for e in events if e["t"] == "load"])
-    bad = [e for e in events if e["t"] != "load" and any(v != "ok" for v in e["status"].values())]
+    bad = [e for e in events if e["t"] in ("q", "call") and any(v != "ok" for v in e["status"].values())]
     e = next((x for x in events if x["t"] == "call"), None)
     if e:
         run.sample({"call": e["api"], "arg": b2s(e["arg"])[:120] if e["arg"] else "", "status": e["status"]})
     validate_pure_trace(run, scratch, "Trace_Total", "Trace_Retrace", events, workers=14 if t else 10, timeout=3000,
                         corrupt=_c13_corrupt, canary_pred=lambda ev: ev["t"] == "q",
                         signature=lambda ev: {"api": ev.get("api", "query"),
-                                              "status": sorted(set(ev.get("status", {}).values()))})
+                                              "status": sorted(set(ev.get("status", {}).values())),
+                                              "failing": [b2s(f["arg"]) + ": " + f["what"] for f in ev.get("failing", [])][:3]})
     run.steps[-1]["sessions"] = nload
     run.steps[-1]["calls_not_ok_recorded"] = len(bad)
     run.exhaustive = False
@@ -802,6 +813,14 @@ def c20(run, scratch):
     validate_pure_trace(run, scratch, "Trace_Threads", "Trace_Retrace", events, workers=14 if t else 10, timeout=3000,
                         corrupt=_retrace_trace_corrupt, canary_pred=lambda ev: ev["t"] == "q" and ev["sid"] == 1,
                         signature=lambda ev: {"thread": ev.get("thread"), "query_kind": ev.get("q", {}).get("t")})
+    tev = harness_trace(scratch, "threadstext", "threadstext", ["--seed", run.seed, "--n", 16 if t else 6, "--reps", 300 if t else 150])
+
+    def tcorrupt(ev):
+        ev["others"] = [ev["out"]]
+        return ev
+    validate_pure_trace(run, scratch, "Trace_Text_threads", "Trace_Text", tev, workers=14 if t else 10, timeout=3000,
+                        corrupt=tcorrupt, canary_pred=lambda ev: ev["t"] == "typed",
+                        signature=lambda ev: {"event": ev.get("t"), "thread": ev.get("thread"), "unstable": len(ev.get("others", []))})
     run.exhaustive = False
     run.assumptions += COMMON_ASSUME + ["the auto-trait half is decided by the Rust type checker (harness/sendsync), not by TLC",
                                         "thread interleavings are whatever the OS scheduler produces (2..16 threads, barrier start)"]
